@@ -460,13 +460,39 @@ type collector struct {
 	total map[string]int64
 }
 
+// add keeps, per class, the keepPerClass smallest cases seen so far (by length,
+// then text) whatever the arrival order, so that what is reported does not
+// depend on goroutine scheduling.
 func (k *collector) add(class string, v common.Violation) {
 	k.mu.Lock()
 	k.total[class]++
-	if len(k.cases[class]) < 20000 {
-		k.cases[class] = append(k.cases[class], v)
+	k.cases[class] = append(k.cases[class], v)
+	if len(k.cases[class]) > 4096 {
+		k.cases[class] = smallest(k.cases[class])
 	}
 	k.mu.Unlock()
+}
+
+const keepPerClass = 50
+
+func smallest(vs []common.Violation) []common.Violation {
+	sort.Slice(vs, func(i, j int) bool {
+		if len(vs[i].Case) != len(vs[j].Case) {
+			return len(vs[i].Case) < len(vs[j].Case)
+		}
+		return vs[i].Case < vs[j].Case
+	})
+	out := vs[:0]
+	for _, v := range vs {
+		if len(out) > 0 && out[len(out)-1].Case == v.Case {
+			continue
+		}
+		out = append(out, v)
+		if len(out) >= keepPerClass {
+			break
+		}
+	}
+	return out
 }
 
 type replayRec struct {
@@ -480,7 +506,7 @@ func run(c *common.Ctx) *common.Result {
 	res := common.NewResult()
 	if c.Deadline.IsZero() { // own soft deadline: leads to Cap, never to a verdict
 		if c.Thorough() {
-			c.Deadline = c.Start.Add(9 * time.Minute)
+			c.Deadline = c.Start.Add(8 * time.Minute)
 		} else {
 			c.Deadline = c.Start.Add(3 * time.Minute)
 		}
@@ -526,76 +552,48 @@ func run(c *common.Ctx) *common.Result {
 		}
 	}
 
-	// ---- (a) byte strings ----
+	phaseStart := time.Now()
+	phase := func(name string) { // informational only
+		res.Add("wall_ms_"+name, time.Since(phaseStart).Milliseconds())
+		phaseStart = time.Now()
+	}
+	var cmu sync.Mutex
+	// ---- (a) byte strings: work item = first two bytes ----
+	// Lengths ≤ 3 get the full check (re-parse directly, after a good and after a
+	// bad unrelated text); length 4 gets the direct re-parse only.
 	na := len(byteAlphabet)
 	{
 		t := tally{}
 		f, o := checkInput("", true)
 		record(t, "a_bytes", "", true, f, o, true)
+		for _, x := range byteAlphabet {
+			s := string([]byte{x})
+			f, o := checkInput(s, true)
+			record(t, "a_bytes", s, true, f, o, true)
+		}
 		flush(t)
 	}
-	common.ParallelFor(c, na, func(i int) {
-		// strings starting with byteAlphabet[i]
+	common.ParallelFor(c, na*na, func(w int) {
 		t := tally{}
 		defer flush(t)
 		buf := make([]byte, 0, maxLen)
 		var rec func(b []byte)
 		rec = func(b []byte) {
 			s := string(b)
-			f, o := checkInput(s, true)
-			record(t, "a_bytes", s, true, f, o, true)
+			full := len(b) <= 3
+			f, o := checkInput(s, full)
+			record(t, "a_bytes", s, full, f, o, true)
 			if len(b) < maxLen {
 				for _, x := range byteAlphabet {
 					rec(append(b, x))
 				}
 			}
 		}
-		rec(append(buf, byteAlphabet[i]))
+		rec(append(buf, byteAlphabet[w/na], byteAlphabet[w%na]))
 	})
 	res.Sample(map[string]interface{}{"space": "a", "input": strconv.Quote("=\xc3 <"), "result": parse("=\xc3 <").signature()})
 	res.Sample(map[string]interface{}{"space": "a", "input": strconv.Quote("a\n`"), "result": parse("a\n`").signature()})
-
-	// ---- (b) token strings ----
-	toks := gram.Tokens()
-	nt := len(toks)
-	var cappedB bool
-	var cmu sync.Mutex
-	// work item = first two tokens (or a single token)
-	common.ParallelFor(c, nt+nt*nt, func(w int) {
-		t := tally{}
-		defer flush(t)
-		if w < nt {
-			s := toks[w]
-			f, o := checkInput(s, true)
-			record(t, "b_tokens", s, true, f, o, !inSpaceA(s, maxLen))
-			return
-		}
-		w -= nt
-		prefix := toks[w/nt] + " " + toks[w%nt]
-		var rec func(s string, n int)
-		rec = func(s string, n int) {
-			full := n <= 3
-			f, o := checkInput(s, full)
-			record(t, "b_tokens", s, full, f, o, !inSpaceA(s, maxLen))
-			if n < maxLen {
-				if n >= 3 && c.Expired() {
-					cmu.Lock()
-					cappedB = true
-					cmu.Unlock()
-					return
-				}
-				for _, tk := range toks {
-					rec(s+" "+tk, n+1)
-				}
-			}
-		}
-		rec(prefix, 2)
-	})
-	if cappedB {
-		res.Cap(fmt.Sprintf("soft deadline reached inside the token strings of length %d", maxLen))
-	}
-	res.Sample(map[string]interface{}{"space": "b", "input": "a = <- b", "result": parse("a = <- b").signature()})
-	res.Sample(map[string]interface{}{"space": "b", "input": "func ( ...", "result": parse("func ( ...").signature()})
+	phase("a")
 
 	// ---- (c) prefixes ----
 	pc := prefixCorpus()
@@ -615,27 +613,40 @@ func run(c *common.Ctx) *common.Result {
 			record(t, "c_prefixes", s, true, f, o, !inSpaceA(s, maxLen) && !inSpaceB(s, maxLen))
 		}
 	})
-	// deep nesting, once each
+	phase("c_prefixes")
+	// deep nesting, once each (closed and never closed)
+	type deepCase struct {
+		style, depth int
+		closed       bool
+	}
+	var deep []deepCase
 	for _, depth := range []int{1000, 10000} {
 		for i := range nestStyles {
-			for _, s := range []string{nest(i, depth), strings.Repeat(nestStyles[i].open, depth)} {
-				f, o := checkInput(s, false)
-				res.Add("deep_nesting_cases", 1)
-				res.Max("nesting_depth", int64(depth))
-				if o.err == nil && o.pan == "" {
-					res.Add("deep_nesting_parsed", 1)
-				}
-				// Case is kept short: the generator, not 60 kB of brackets
-				for _, x := range f {
-					col.add(x.Class, common.Violation{Class: x.Class, Case: fmt.Sprintf("nest(style %q…%q, depth %d, closed=%v)", nestStyles[i].open, nestStyles[i].close, depth, strings.HasSuffix(s, nestStyles[i].close) && nestStyles[i].close != ""), Detail: x.Detail, Replay: replayRec{Space: "input", A: hex.EncodeToString([]byte(s))}})
-				}
-				t := tally{}
-				record(t, "c_prefixes", "", false, nil, o, true)
-				flush(t)
-			}
+			deep = append(deep, deepCase{i, depth, true}, deepCase{i, depth, false})
 		}
 	}
+	common.ParallelFor(c, len(deep), func(k int) {
+		d := deep[k]
+		s := strings.Repeat(nestStyles[d.style].open, d.depth)
+		if d.closed {
+			s = nest(d.style, d.depth)
+		}
+		f, o := checkInput(s, false)
+		t := tally{}
+		t.Add("deep_nesting_cases", 1)
+		if o.err == nil && o.pan == "" {
+			t.Add("deep_nesting_parsed", 1)
+		}
+		res.Max("nesting_depth", int64(d.depth))
+		// Case is kept short: the generator, not 60 kB of brackets
+		for _, x := range f {
+			col.add(x.Class, common.Violation{Class: x.Class, Case: fmt.Sprintf("nest(open=%q, close=%q, depth=%d, closed=%v)", nestStyles[d.style].open, nestStyles[d.style].close, d.depth, d.closed), Detail: x.Detail, Replay: replayRec{Space: "input", A: hex.EncodeToString([]byte(s))}})
+		}
+		record(t, "c_prefixes", "", false, nil, o, true)
+		flush(t)
+	})
 	res.Sample(map[string]interface{}{"space": "c", "input": strconv.Quote(pc[len(pc)/2][:len(pc[len(pc)/2])/2]), "result": parse(pc[len(pc)/2][:len(pc[len(pc)/2])/2]).signature()})
+	phase("c_deep")
 
 	// ---- (d) pairs ----
 	var progs []*prog
@@ -688,7 +699,58 @@ func run(c *common.Ctx) *common.Result {
 		o := parse(a.src + "\n" + b.src)
 		res.Sample(map[string]interface{}{"space": "d", "A": a.src, "B": b.src, "A_alone": a.dumps, "B_alone": b.dumps, "A+B": dumpList(stmtList(o.tree), 0, true)})
 	}
+	phase("d")
 
+	// ---- (b) token strings, last: its longest length is the only part a slow
+	// machine may cut short (Cap) ----
+	toks := gram.Tokens()
+	nt := len(toks)
+	tokenStrings := func(upTo int, fromLen int) (capped bool) {
+		// work item = first two tokens; strings of length in [fromLen, upTo] are checked
+		common.ParallelFor(c, nt*nt, func(w int) {
+			t := tally{}
+			defer flush(t)
+			var rec func(s string, n int)
+			rec = func(s string, n int) {
+				if n >= fromLen {
+					full := n <= 2
+					f, o := checkInput(s, full)
+					record(t, "b_tokens", s, full, f, o, !inSpaceA(s, maxLen))
+				}
+				if n < upTo {
+					if n >= 3 && c.Expired() {
+						cmu.Lock()
+						capped = true
+						cmu.Unlock()
+						return
+					}
+					for _, tk := range toks {
+						rec(s+" "+tk, n+1)
+					}
+				}
+			}
+			rec(toks[w/nt]+" "+toks[w%nt], 2)
+		})
+		return
+	}
+	{
+		t := tally{}
+		for _, s := range toks {
+			f, o := checkInput(s, true)
+			record(t, "b_tokens", s, true, f, o, !inSpaceA(s, maxLen))
+		}
+		flush(t)
+	}
+	tokenStrings(3, 2)
+	res.Sample(map[string]interface{}{"space": "b", "input": "a = <- b", "result": parse("a = <- b").signature()})
+	res.Sample(map[string]interface{}{"space": "b", "input": "func ( ...", "result": parse("func ( ...").signature()})
+	phase("b_len_le_3")
+	if maxLen >= 4 {
+		if tokenStrings(4, 4) {
+			res.Cap("soft deadline reached inside the token strings of length 4 (lengths 1-3 and all other spaces were completed)")
+		}
+		phase("b_len_4")
+	}
 	// violations: per class the 50 smallest cases, in canonical order
 	var classes []string
 	for cl := range col.cases {
@@ -696,28 +758,13 @@ func run(c *common.Ctx) *common.Result {
 	}
 	sort.Strings(classes)
 	for _, cl := range classes {
-		vs := col.cases[cl]
-		sort.Slice(vs, func(i, j int) bool {
-			if len(vs[i].Case) != len(vs[j].Case) {
-				return len(vs[i].Case) < len(vs[j].Case)
-			}
-			return vs[i].Case < vs[j].Case
-		})
+		vs := smallest(col.cases[cl])
 		res.Add("failing_cases:"+cl, col.total[cl])
-		prev := ""
-		kept := 0
-		for _, v := range vs {
-			if v.Case == prev {
-				continue
-			}
-			prev = v.Case
-			if kept == 0 {
+		for n, v := range vs {
+			if n == 0 {
 				v.Detail += fmt.Sprintf(" [%d failing cases in this class in this run]", col.total[cl])
 			}
 			res.Violate(v)
-			if kept++; kept >= 50 {
-				break
-			}
 		}
 	}
 	return res
@@ -733,21 +780,21 @@ func coverage(c *common.Ctx, r *common.Result) map[string]interface{} {
 		"distinct_nontrivial": r.Counts["distinct_nontrivial"],
 		"rule": "a case is one input text of spaces (a)-(c) or one ordered pair of (d). An input is non-trivial when ParseSrc produced an error (position and type oracle exercised) or a non-empty statement list (determinism oracle exercised on a real tree); blank/comment-only inputs are trivial. A pair is non-trivial when B has at least one statement (the shift oracle compares at least one node). " +
 			"Distinctness is measured: strings inside one space are distinct by construction; a token string that is also a byte string of (a), and a prefix that is also in (a) or (b) or was already seen in (c), is evaluated but not counted again.",
-		"space_a_byte_alphabet":      fmt.Sprintf("%q", string(byteAlphabet)),
-		"space_a_max_len":            maxLen,
-		"space_a_cases":              r.Counts["cases_a_bytes"],
-		"space_b_token_alphabet":     len(gram.Tokens()),
-		"space_b_max_len":            maxLen,
-		"space_b_cases":              r.Counts["cases_b_tokens"],
-		"space_c_programs":           r.Counts["prefix_corpus_programs"],
-		"space_c_cases":              r.Counts["cases_c_prefixes"],
-		"space_c_max_nesting_depth":  r.GetMax("nesting_depth"),
-		"space_d_programs":           r.Counts["pair_corpus_programs"],
-		"space_d_pairs":              r.Counts["cases_d_pairs"],
-		"space_d_last_kinds_of_A":    r.SetMembers("last_kinds_of_A"),
-		"space_d_first_kinds_of_B":   r.SetMembers("first_kinds_of_B"),
-		"columns_checked_in":         "runes (the lexer indexes []rune(src); an invalid UTF-8 byte counts as one rune) — at least as strict as bytes",
-		"distinct_outcomes":          map[string]int64{"tree": r.Counts["outcome_tree"], "empty_program": r.Counts["outcome_empty_program"], "lexer_error": r.Counts["outcome_lexer_error"], "syntax_error": r.Counts["outcome_syntax_error"], "error_with_tree": r.Counts["outcome_error_with_tree"], "panic": r.Counts["outcome_panic"]},
+		"space_a_byte_alphabet":     fmt.Sprintf("%q", string(byteAlphabet)),
+		"space_a_max_len":           maxLen,
+		"space_a_cases":             r.Counts["cases_a_bytes"],
+		"space_b_token_alphabet":    len(gram.Tokens()),
+		"space_b_max_len":           maxLen,
+		"space_b_cases":             r.Counts["cases_b_tokens"],
+		"space_c_programs":          r.Counts["prefix_corpus_programs"],
+		"space_c_cases":             r.Counts["cases_c_prefixes"],
+		"space_c_max_nesting_depth": r.GetMax("nesting_depth"),
+		"space_d_programs":          r.Counts["pair_corpus_programs"],
+		"space_d_pairs":             r.Counts["cases_d_pairs"],
+		"space_d_last_kinds_of_A":   r.SetMembers("last_kinds_of_A"),
+		"space_d_first_kinds_of_B":  r.SetMembers("first_kinds_of_B"),
+		"columns_checked_in":        "runes (the lexer indexes []rune(src); an invalid UTF-8 byte counts as one rune) — at least as strict as bytes",
+		"distinct_outcomes":         map[string]int64{"tree": r.Counts["outcome_tree"], "empty_program": r.Counts["outcome_empty_program"], "lexer_error": r.Counts["outcome_lexer_error"], "syntax_error": r.Counts["outcome_syntax_error"], "error_with_tree": r.Counts["outcome_error_with_tree"], "panic": r.Counts["outcome_panic"]},
 	}
 }
 
